@@ -224,6 +224,11 @@ def join_tmpl(x, y):
     """join of two iterator templates of the same shape (role sets are united, element values joined)"""
     if x == y:
         return x
+    # ("fresh", t): an iterator that is known to yield at least once and has not been stepped yet; the join forgets that
+    if isinstance(x, tuple) and x and x[0] == "fresh" and not (isinstance(y, tuple) and y and y[0] == "fresh"):
+        return join_tmpl(x[1], y)
+    if isinstance(y, tuple) and y and y[0] == "fresh" and not (isinstance(x, tuple) and x and x[0] == "fresh"):
+        return join_tmpl(x, y[1])
     if not (isinstance(x, tuple) and isinstance(y, tuple)) or len(x) != len(y) or x[0] != y[0]:
         return None
     out = [x[0]]
@@ -233,7 +238,7 @@ def join_tmpl(x, y):
         elif isinstance(p, frozenset) and isinstance(q, frozenset):
             out.append(p | q)
         elif isinstance(p, tuple) and isinstance(q, tuple) and p and q and isinstance(p[0], str) and p[0] == q[0] and \
-                p[0] in ("av", "nbr", "enum", "filter", "map", "filter_map", "pairs", "jobs"):
+                p[0] in ("av", "nbr", "enum", "filter", "map", "filter_map", "pairs", "jobs", "fresh"):
             r = join_tmpl(p, q)
             if r is None:
                 return None
